@@ -184,8 +184,8 @@ def run_pager(ctx, scen):
         ctx.check("C09.interleaved_size", len(lr) == k and bool(a.get("token")), lambda: "non-final answer with %d pages (k=%d) or no token" % (len(lr), k))
         token = a["token"]
         token_roundtrip(ctx, token)
-        if calls > budget:
-            ctx.fail("C09.interleaved_termination", "pager did not finish within %d calls" % budget)
+        if calls > len(m.pages) + 3:  # every non-final call returns at least one new page
+            ctx.fail("C09.interleaved_termination", "pager did not finish within %d calls although the index holds %d pages" % (calls, len(m.pages)))
         between(calls - 1)
     ctx.check("C09.interleaved_no_dup", len(seen) == len(set(seen)), lambda: "page repeated: %s" % short([l for l, c in Counter(seen).items() if c > 1]))
     keyed = [(own_prefix_index(prefs, l), l) for l in seen]
